@@ -385,6 +385,8 @@ def r01_4(prog: Program, rep: Report):
 
 
 def run(prog: Program, rep: Report, tier: str):
+    rep.rule("R01.7", "a parameterised scalar spelling (re.Pattern[str]) round-trips through the same routine pair as the bare class (shared with R17.11)", floor=4)
+    C.param_spelling_agreement(prog, rep, "R01.7")
     rep.rule("R01.1", "dispatch reachability and precedence in both _HANDLERS tables", floor=50)
     rep.rule("R01.2", "marshal wire form / unmarshal reader form are an inverse pair per scalar family", floor=19)
     rep.rule("R01.3", "temporal reconstructions copy every constructor field from one source", floor=3)
